@@ -258,6 +258,9 @@ impl Interval {
     /// Returns the `NAN` interval if the input is invalid
     #[inline]
     pub fn asin(self) -> Self {
+        if self.has_nan() {
+            return f32::NAN.into();
+        }
         if self.lower < -1.0 || self.upper > 1.0 {
             f32::NAN.into()
         } else if self.lower() == self.upper() {
@@ -271,6 +274,9 @@ impl Interval {
     /// Returns the `NAN` interval if the input is invalid
     #[inline]
     pub fn acos(self) -> Self {
+        if self.has_nan() {
+            return f32::NAN.into();
+        }
         if self.lower < -1.0 || self.upper > 1.0 {
             f32::NAN.into()
         } else if self.lower() == self.upper() {
@@ -282,11 +288,17 @@ impl Interval {
     /// Computes the arctangent of the interval
     #[inline]
     pub fn atan(self) -> Self {
+        if self.has_nan() {
+            return f32::NAN.into();
+        }
         Interval::new(self.lower.atan(), self.upper.atan())
     }
     /// Computes the exponent function applied to the interval
     #[inline]
     pub fn exp(self) -> Self {
+        if self.has_nan() {
+            return f32::NAN.into();
+        }
         Interval::new(self.lower.exp(), self.upper.exp())
     }
     /// Computes the natural log of the input interval
@@ -294,6 +306,9 @@ impl Interval {
     /// Returns the `NAN` interval if the input contains zero
     #[inline]
     pub fn ln(self) -> Self {
+        if self.has_nan() {
+            return f32::NAN.into();
+        }
         if self.lower <= 0.0 {
             f32::NAN.into()
         } else {
